@@ -208,6 +208,48 @@ func runNumericDecoders(c *Ctx, fns []*ssa.Function, rule string) {
 					k++
 					base, isK := constInt(call.Call.Args[1])
 					c.Check(isK && base == 10, rule, shortName(f), fmt.Sprintf("%s #%d reads decimal", name, k), p.ipos(call), "base 10", fmt.Sprintf("%s is called with base %v: a cell with a leading zero is read as octal (or rejected), 0x.. as hexadecimal", name, descr(call.Call.Args[1])))
+					// the number is parsed at the width it is stored at: strconv then rejects what does not fit (the cell is
+					// treated as unparsable), instead of the decoder truncating or saturating it into another valid value
+					if bits, isB := constInt(call.Call.Args[2]); isB && call.Referrers() != nil {
+						for _, r := range *call.Referrers() {
+							ex, isEx := r.(*ssa.Extract)
+							if !isEx || ex.Index != 0 || ex.Referrers() == nil {
+								continue
+							}
+							var narrow func(v ssa.Value, d int) string
+							narrow = func(v ssa.Value, d int) string {
+								if v.Referrers() == nil || d > 4 {
+									return ""
+								}
+								for _, r2 := range *v.Referrers() {
+									switch y := r2.(type) {
+									case *ssa.Convert:
+										if bt, ok := y.Type().Underlying().(*types.Basic); ok && bt.Info()&types.IsInteger != 0 {
+											w := int64(0)
+											switch bt.Kind() {
+											case types.Int8, types.Uint8:
+												w = 8
+											case types.Int16, types.Uint16:
+												w = 16
+											case types.Int32, types.Uint32:
+												w = 32
+											}
+											if w != 0 && w < bits {
+												return fmt.Sprintf("parsed with %d bits and then converted to %s at %s", bits, bt.Name(), p.ipos(y))
+											}
+										}
+									case *ssa.Phi:
+										if s := narrow(y, d+1); s != "" {
+											return s
+										}
+									}
+								}
+								return ""
+							}
+							why := narrow(ex, 0)
+							c.Check(why == "", rule, shortName(f), fmt.Sprintf("%s #%d parses at the width it is stored at", name, k), p.ipos(call), fmt.Sprintf("bit size %d, no narrower integer conversion of the result", bits), "the number is "+why+": a value that does not fit is no longer rejected by strconv but truncated or saturated into some other number (distinct sequence numbers then share a value)")
+						}
+					}
 				case "strconv.ParseFloat":
 					n++
 					k++
